@@ -17,6 +17,7 @@ import (
 	"io"
 	"os"
 	"os/exec"
+	"runtime"
 	"runtime/debug"
 	"strings"
 	"sync"
@@ -24,6 +25,14 @@ import (
 )
 
 var isolatedOps = map[string]ImplFunc{}
+
+// ops that ran in a worker and allocated more than the audit's allowance for their input
+type workerAlloc struct {
+	op, args string
+	bytes    uint64
+}
+
+var workerAllocEvents []workerAlloc
 
 const workerOpTimeout = 10 * time.Second
 
@@ -50,6 +59,10 @@ func init() {
 		f, ok := isolatedOps[toks[0]]
 		res := "bad-worker-op"
 		if ok {
+			// a worker runs one op at a time: what it allocates meanwhile is the op's (allocation audit, engine.go)
+			var ms runtime.MemStats
+			runtime.ReadMemStats(&ms)
+			before := ms.TotalAlloc
 			res = func() (r string) {
 				defer func() {
 					if e := recover(); e != nil {
@@ -58,6 +71,8 @@ func init() {
 				}()
 				return f(toks[1:])
 			}()
+			runtime.ReadMemStats(&ms)
+			res += fmt.Sprintf("\talloc=%d", ms.TotalAlloc-before)
 		}
 		w.WriteString(res)
 		w.WriteByte('\n')
@@ -167,6 +182,20 @@ func workerCall(name string, args []string) string {
 			panic("fatal error in worker process (unrecoverable in-process): " + msg)
 		}
 		workerPool <- w
+		if i := strings.LastIndex(r.line, "\talloc="); i >= 0 {
+			var n uint64
+			fmt.Sscanf(r.line[i+7:], "%d", &n)
+			r.line = r.line[:i]
+			in := 0
+			for _, x := range args {
+				in += len(x)
+			}
+			if n > allocAllowance(uint64(in/2+1)) {
+				workerMu.Lock()
+				workerAllocEvents = append(workerAllocEvents, workerAlloc{name, strings.Join(args, " "), n})
+				workerMu.Unlock()
+			}
+		}
 		if strings.HasPrefix(r.line, "panic\t") {
 			panic("panic in worker process: " + strings.ReplaceAll(r.line[6:], "\x1e", "\n"))
 		}
